@@ -829,6 +829,54 @@ theorem runFrom_reached (tx : List TOp) (w0 : WState) : ∀ (rest : List TOp) (i
 theorem before_zero (w : WState) (tx : List TOp) : w.before tx 0 = some w := by
   unfold WState.before; simp [WState.runFrom]
 
+/-- `runFrom_at`, naming the reached state: instruction `j` of a committed transaction ran, and succeeded, on `w0.before tx j`,
+    where every raised in-flash-loan flag still has its `end_flashloan` ahead -/
+theorem runFrom_at_b (tx : List TOp) (w0 : WState) : ∀ (rest : List TOp) (i : Nat) (w w' : WState), tx.drop i = rest →
+    w0.before tx i = some w → WState.runFrom tx i rest w = some w' → Pending tx i w →
+    ∀ (j : Nat) (t : TOp), i ≤ j → tx[j]? = some t →
+      ∃ (wj wj' : WState), w0.before tx j = some wj ∧ Pending tx j wj ∧ wj.stepIn tx j t = some wj' := by
+  intro rest
+  induction rest with
+  | nil =>
+    intro i w w' hd _ h hp j t hij hj
+    have hlen : tx.length ≤ i := by
+      rcases Nat.lt_or_ge i tx.length with h1 | h1
+      · have : (tx.drop i).length = tx.length - i := List.length_drop
+        rw [hd] at this; simp at this; omega
+      · exact h1
+    have : j < tx.length := by
+      rcases Nat.lt_or_ge j tx.length with h1 | h1
+      · exact h1
+      · rw [List.getElem?_eq_none h1] at hj; cases hj
+    omega
+  | cons op rest ih =>
+    intro i w w' hd hbef h hp j t hij hj
+    obtain ⟨hti, hd'⟩ := drop_cons_facts hd
+    simp only [WState.runFrom] at h
+    split at h
+    · rename_i w1 h1
+      rcases Nat.lt_or_ge i j with hlt | hge
+      · have hlt' : i < tx.length := by
+          rcases Nat.lt_or_ge i tx.length with h2 | h2
+          · exact h2
+          · rw [List.getElem?_eq_none h2] at hti; cases hti
+        have htake : tx.take (i + 1) = tx.take i ++ [op] := by
+          rw [List.take_succ, hti]; rfl
+        have hbef1 : w0.before tx (i + 1) = some w1 := by
+          unfold WState.before at hbef ⊢
+          rw [htake]
+          apply runFrom_snoc tx (tx.take i) 0 w0 w w1 op hbef
+          have : (tx.take i).length = i := by simp [List.length_take]; omega
+          rw [this, Nat.zero_add]; exact h1
+        exact ih (i + 1) w1 w' hd' hbef1 h (stepIn_pending hti h1 hp) j t (by omega) hj
+      · have : j = i := by omega
+        subst this
+        rw [hti] at hj
+        injection hj with hj
+        subst hj
+        exact ⟨w, w1, hbef, hp, h1⟩
+    · cases h
+
 /-- a deposit of a committed transaction ran, and succeeded, on some reached state -/
 theorem tx_deposit_ran {w w' : WState} {tx : List TOp} (h : w.runTx tx = some w')
     {i ai bi signer : Nat} {amount : Int} {upTo : Bool} (hi : tx[i]? = some (.ix (.deposit ai bi signer amount upTo))) :
@@ -921,7 +969,7 @@ theorem tx_liquidate_ran {w w' : WState} {tx : List TOp} (h : w.runTx tx = some 
 theorem tx_borrow_checked {w w' : WState} {tx : List TOp} (h : w.runTx tx = some w')
     (h0 : ∀ (k : Nat) (a : AcctV), w.accts[k]? = some a → inFlash a = false)
     {i ai bi signer : Nat} {amount : Int} (hi : tx[i]? = some (.ix (.borrow ai bi signer amount))) :
-    (∃ (wi : WState) (a : AcctV) (b : WBank) (o : Out), wi.accts[ai]? = some a ∧ wi.banks[bi]? = some b ∧
+    (∃ (wi : WState) (a : AcctV) (b : WBank) (o : Out), w.before tx i = some wi ∧ wi.accts[ai]? = some a ∧ wi.banks[bi]? = some b ∧
         borrow (wi.ctx a b signer b.v.liquidityVault 0) amount = .ok o ∧ inFlash a = false ∧
         initHealth (wi.ctx a b signer b.v.liquidityVault 0) o.slots o.books = .ok ()) ∨
     (∃ (j s : Nat) (wj : WState) (a : AcctV) (f : Nat), i < j ∧ tx[j]? = some (.endFlash ai s) ∧ wj.accts[ai]? = some a ∧
@@ -929,7 +977,7 @@ theorem tx_borrow_checked {w w' : WState} {tx : List TOp} (h : w.runTx tx = some
   have hp0 : Pending tx 0 w := by
     intro k a hk hf
     rw [h0 k a hk] at hf; cases hf
-  obtain ⟨wi, wi', hpi, hst⟩ := runFrom_at tx tx 0 w w' rfl h hp0 i _ (Nat.zero_le _) hi
+  obtain ⟨wi, wi', hbi, hpi, hst⟩ := runFrom_at_b tx w tx 0 w w' rfl (before_zero w tx) h hp0 i _ (Nat.zero_le _) hi
   simp only [WState.stepIn, WState.step?] at hst
   split at hst
   · rename_i a b ha hb
@@ -938,7 +986,7 @@ theorem tx_borrow_checked {w w' : WState} {tx : List TOp} (h : w.runTx tx = some
       cases hfa : inFlash a with
       | false =>
         left
-        exact ⟨wi, a, b, o, ha, hb, ho, hfa, (borrow_ok ho).health⟩
+        exact ⟨wi, a, b, o, hbi, ha, hb, ho, hfa, (borrow_ok ho).health⟩
       | true =>
         right
         obtain ⟨j, s, hij, hj⟩ := hpi ai a ha hfa
@@ -954,14 +1002,14 @@ theorem tx_borrow_checked {w w' : WState} {tx : List TOp} (h : w.runTx tx = some
 theorem tx_liquidate_at {w w' : WState} {tx : List TOp} (h : w.runTx tx = some w')
     (h0 : ∀ (k : Nat) (a : AcctV), w.accts[k]? = some a → inFlash a = false)
     {i qi ei abi lbi signer : Nat} {amount : Int} (hi : tx[i]? = some (.ix (.liquidate qi ei abi lbi signer amount))) :
-    ∃ (wi : WState) (lq le : AcctV) (ab lb : WBank) (o : LiqOutW), wi.accts[qi]? = some lq ∧ wi.accts[ei]? = some le ∧
+    ∃ (wi : WState) (lq le : AcctV) (ab lb : WBank) (o : LiqOutW), w.before tx i = some wi ∧ wi.accts[qi]? = some lq ∧ wi.accts[ei]? = some le ∧
       wi.banks[abi]? = some ab ∧ wi.banks[lbi]? = some lb ∧ liquidate (wi.liqCtx lq le ab lb signer) amount = .ok o ∧
       (inFlash lq = true → ∃ (j s : Nat) (wj : WState) (a : AcctV) (f : Nat), i < j ∧ tx[j]? = some (.endFlash qi s) ∧
         wj.accts[qi]? = some a ∧ endFlashloan (wj.actx a s) 1 = .ok f) := by
   have hp0 : Pending tx 0 w := by
     intro k a hk hf
     rw [h0 k a hk] at hf; cases hf
-  obtain ⟨wi, wi', hpi, hst⟩ := runFrom_at tx tx 0 w w' rfl h hp0 i _ (Nat.zero_le _) hi
+  obtain ⟨wi, wi', hbi, hpi, hst⟩ := runFrom_at_b tx w tx 0 w w' rfl (before_zero w tx) h hp0 i _ (Nat.zero_le _) hi
   simp only [WState.stepIn, WState.step?] at hst
   split at hst
   · cases hst
@@ -969,7 +1017,7 @@ theorem tx_liquidate_at {w w' : WState} {tx : List TOp} (h : w.runTx tx = some w
     · rename_i lq le ab lb hq he hab hlb
       split at hst
       · rename_i o ho
-        refine ⟨wi, lq, le, ab, lb, o, hq, he, hab, hlb, ho, ?_⟩
+        refine ⟨wi, lq, le, ab, lb, o, hbi, hq, he, hab, hlb, ho, ?_⟩
         intro hfa
         obtain ⟨j, s, hij, hj⟩ := hpi qi lq hq hfa
         have hne : j ≠ i := by
@@ -983,7 +1031,7 @@ theorem tx_liquidate_at {w w' : WState} {tx : List TOp} (h : w.runTx tx = some w
 theorem tx_withdraw_checked {w w' : WState} {tx : List TOp} (h : w.runTx tx = some w')
     (h0 : ∀ (k : Nat) (a : AcctV), w.accts[k]? = some a → inFlash a = false)
     {i ai bi signer : Nat} {amount vault : Int} {all : Bool} (hi : tx[i]? = some (.ix (.withdraw ai bi signer amount all vault))) :
-    (∃ (wi : WState) (a : AcctV) (b : WBank) (o : Out), wi.accts[ai]? = some a ∧ wi.banks[bi]? = some b ∧
+    (∃ (wi : WState) (a : AcctV) (b : WBank) (o : Out), w.before tx i = some wi ∧ wi.accts[ai]? = some a ∧ wi.banks[bi]? = some b ∧
         withdraw (wi.ctx a b signer b.v.liquidityVault vault) amount all = .ok o ∧ inFlash a = false ∧
         withdrawHealth (wi.ctx a b signer b.v.liquidityVault vault) o.slots o.books = .ok ()) ∨
     (∃ (j s : Nat) (wj : WState) (a : AcctV) (f : Nat), i < j ∧ tx[j]? = some (.endFlash ai s) ∧ wj.accts[ai]? = some a ∧
@@ -991,7 +1039,7 @@ theorem tx_withdraw_checked {w w' : WState} {tx : List TOp} (h : w.runTx tx = so
   have hp0 : Pending tx 0 w := by
     intro k a hk hf
     rw [h0 k a hk] at hf; cases hf
-  obtain ⟨wi, wi', hpi, hst⟩ := runFrom_at tx tx 0 w w' rfl h hp0 i _ (Nat.zero_le _) hi
+  obtain ⟨wi, wi', hbi, hpi, hst⟩ := runFrom_at_b tx w tx 0 w w' rfl (before_zero w tx) h hp0 i _ (Nat.zero_le _) hi
   simp only [WState.stepIn, WState.step?] at hst
   split at hst
   · rename_i a b ha hb
@@ -1000,7 +1048,7 @@ theorem tx_withdraw_checked {w w' : WState} {tx : List TOp} (h : w.runTx tx = so
       cases hfa : inFlash a with
       | false =>
         left
-        exact ⟨wi, a, b, o, ha, hb, ho, hfa, (withdraw_ok ho).health⟩
+        exact ⟨wi, a, b, o, hbi, ha, hb, ho, hfa, (withdraw_ok ho).health⟩
       | true =>
         right
         obtain ⟨j, s, hij, hj⟩ := hpi ai a ha hfa
